@@ -1236,3 +1236,21 @@ def value_term(fn, self_effects=None):
     if len(r2) == 1 and not (isinstance(r2[0], ast.Name) and r2[0].id == "__ret"):
         return r2[0]
     return None
+
+
+
+def index_of_map(term):
+    """[E(v) for v in X][k]  ->  E(X[k])   (no filter, one generator, X a plain path, k not a slice): the k-th element of a list
+    built by mapping over X is the image of the k-th element of X"""
+    class M(ast.NodeTransformer):
+        def visit_Subscript(self, n):
+            self.generic_visit(n)
+            v = n.value
+            if isinstance(v, ast.ListComp) and len(v.generators) == 1 and not v.generators[0].ifs and isinstance(v.generators[0].target, ast.Name) \
+                    and access_path(v.generators[0].iter) is not None and not isinstance(n.slice, ast.Slice):
+                g = v.generators[0]
+                el = ast.Subscript(value=copy.deepcopy(g.iter), slice=n.slice, ctx=ast.Load())
+                out = _Subst({g.target.id: el}, set()).visit(copy.deepcopy(v.elt))
+                return ast.fix_missing_locations(ast.copy_location(out, n))
+            return n
+    return M().visit(copy.deepcopy(term))
